@@ -143,6 +143,10 @@ RTB_CONFIGS = {
     "post_logit": dict(kw=dict(post_rescaling="logit", update_bounds=False), update=False),
     "post_log": dict(kw=dict(post_rescaling="log", update_bounds=False), update=False),
     "pre_log_post_logit": dict(kw=dict(pre_rescaling="log", post_rescaling="logit", update_bounds=False), update=False, positive=True),
+    # option combinations for which the code decides itself whether a prime prior is offered: R4 is checked whenever it is
+    "pre_log_uniform_prior": dict(kw=dict(pre_rescaling="log", prior="uniform", update_bounds=False), update=False, positive=True, prior="if_offered"),
+    "post_logit_uniform_prior": dict(kw=dict(post_rescaling="logit", prior="uniform", update_bounds=False), update=False, prior="if_offered"),
+    "post_log_uniform_prior": dict(kw=dict(post_rescaling="log", prior="uniform", update_bounds=False), update=False, prior="if_offered"),
     "inversion_split_lower": dict(kw=dict(boundary_inversion=True, inversion_type="split", update_bounds=False), update=False, test="lower"),
     "inversion_split_upper": dict(kw=dict(boundary_inversion=True, inversion_type="split", update_bounds=False), update=False, test="upper"),
     "inversion_split_none": dict(kw=dict(boundary_inversion=True, inversion_type="split", update_bounds=False), update=False, test=False),
@@ -245,7 +249,11 @@ def make_rtb(cfg_name, nparams=1, npts=2):
         kw = {}
         if "test" in cfg:
             kw["test"] = cfg["test"]
-        _check_1d(ctx, rp, names, X, kw, cfg.get("prior", False), box, mut)
+        has_prior = cfg.get("prior", False)
+        if has_prior == "if_offered":
+            has_prior = bool(rp.has_prime_prior)
+            ctx.cover("prime prior offered" if has_prior else "no prime prior offered")
+        _check_1d(ctx, rp, names, X, kw, has_prior, box, mut)
         ctx.cover("end")
     return body
 
@@ -672,8 +680,9 @@ def make_distance(power, variant):
     """GW: DistanceReparameterisation with the power-law converter (integer power)."""
     def body(ctx):
         from nessai.gw.reparameterisations import DistanceReparameterisation
-        lo, hi = ctx.real("d_min", 1, 50), ctx.real("d_max", 1, 50)
-        ctx.assume(lo < hi)
+        # distances arbitrarily close to zero relative to the converter's scale are part of the prior box
+        lo, hi = ctx.real("d_min", 0, 50), ctx.real("d_max", 0, 50)
+        ctx.assume((lo > 0) & (lo < hi))
         kw = dict(prior="power-law", converter_kwargs=dict(power=power, scale=10.0))
         fwd = {}
         # (without boundary_inversion the constructor raises AttributeError on detect_edges_kwargs: not a configuration
@@ -684,13 +693,13 @@ def make_distance(power, variant):
         rp = DistanceReparameterisation(parameters=["d"], prior_bounds={"d": [lo, hi]}, **kw)
         if upd:
             xt = _struct(ctx, ["d"], 2)
-            a, b = ctx.real("ta", 1, 50), ctx.real("tb", 1, 50)
+            a, b = ctx.real("ta", 0, 50), ctx.real("tb", 0, 50)
             ctx.assume((lo <= a) & (a < b) & (b <= hi))
             xt["d"][0], xt["d"][1] = a, b
             rp.update(xt)
         X = {"d": []}
         for i in range(2):
-            v = ctx.real(f"d{i}", 1, 50)
+            v = ctx.real(f"d{i}", 0, 50)
             ctx.assume((v > lo) & (v < hi))
             if upd:
                 ctx.assume((a <= v) & (v <= b))
